@@ -9,8 +9,8 @@ fuel, what happens to that failure in `execute` (`Model/Interp.lean`).
 
 Main results (end of the file):
 * `io_fault_surfaces` – if at the end the scanner has hit the failure (`scanner.err ≠ none`)
-  and no structured comment has been recorded (`scanner.dsc = []`), the result is
-  `.err (.io t)` (or the scanner model's own fuel marker).
+  and no structured comment has been recorded (`scanner.dsc = []`), the result is exactly
+  `.err (.io t)`.
 * `ok_only_by_stop` – with a failing reader, `execute` returns `.ok` only through an explicit
   `stop`; the scanning loop itself never ends normally (no clean EOF is ever seen).
 * `ok_after_hit_has_dsc`, `final_scanner_err` – corollaries.
@@ -31,6 +31,9 @@ Structure of the proof.
   stays clean or reports the failure; the functions that drop an error (`attempt`) end in a
   state where the next read fails again (the error is sticky), except for the look-ahead of
   `peekN`, whose callers are analysed one by one.
+* pass 3 (`Mn`): the number of bytes left (source plus peek buffer) never grows; with it
+  the fuel of `skipWhiteSpace` is shown never to run out on these paths, so that the reported
+  error is the reader's error and not the scanner model's fuel marker.
 * the 13 interpreter functions, by simultaneous induction on the fuel (pattern of
   `Proofs/InterpCtl.lean`).
 
@@ -732,8 +735,8 @@ def HitSt (t : String) (sc : Scanner) : Prop :=
   sc.fault = some t ∧ sc.err = some (.io t) ∧ sc.src = [] ∧ sc.regurgitate = false
 /-- … and no peeked byte is left: every read fails -/
 def Dead (t : String) (sc : Scanner) : Prop := HitSt t sc ∧ sc.peek = []
-/-- the errors by which a read failure is reported -/
-def IoF (t : String) (e : Err) : Prop := e = .io t ∨ e = .other "scanner-fuel"
+/-- the error by which a read failure is reported -/
+def IoF (t : String) (e : Err) : Prop := e = .io t
 def EC (t : String) (e : Err) (sc : Scanner) : Prop := Clean t sc ∨ (IoF t e ∧ Dead t sc)
 def ECw (t : String) (e : Err) (sc : Scanner) : Prop := Clean t sc ∨ IoF t e
 def DE (t : String) (e : Err) (sc : Scanner) : Prop := IoF t e ∧ Dead t sc
@@ -822,13 +825,13 @@ theorem tr_readByteRaw_clean (pk : List UInt8) :
   intro sc ⟨hc, hp⟩
   rcases readByteRaw_clean hc with ⟨b, sc', h, h1, h2⟩ | ⟨sc', h, h1, h2⟩
   · rw [h]; exact ⟨h1, h2.trans hp⟩
-  · rw [h]; exact ⟨h2.trans hp, Or.inr ⟨Or.inl rfl, h1⟩⟩
+  · rw [h]; exact ⟨h2.trans hp, Or.inr ⟨rfl, h1⟩⟩
 
 theorem tr_readByteRaw_hit (pk : List UInt8) :
     Tr (fun sc => HitSt t sc ∧ sc.peek = pk) readByteRaw (RdH t pk) := by
   intro sc ⟨hc, hp⟩
   rw [readByteRaw_hit hc]
-  exact ⟨Or.inl rfl, hc, hp⟩
+  exact ⟨rfl, hc, hp⟩
 
 theorem tr_readHexPair_clean (pk : List UInt8) : ∀ fuel i out,
     Tr (fun sc => Clean t sc ∧ sc.peek = pk) (readHexPair fuel i out) (RdC t pk) := by
@@ -848,16 +851,13 @@ theorem tr_readHexPair_clean (pk : List UInt8) : ∀ fuel i out,
     · exact ih _ _
     · exact tr_fail (fun sc h => ⟨h.2, Or.inl h.1⟩)
 
-theorem tr_readHexPair_hit (pk : List UInt8) (fuel i : Nat) (out : UInt8) (hi : i < 2) :
-    Tr (fun sc => HitSt t sc ∧ sc.peek = pk) (readHexPair fuel i out) (RdH t pk) := by
-  cases fuel with
-  | zero =>
-    unfold readHexPair
-    exact tr_fail (fun sc h => ⟨Or.inr rfl, h.1, h.2⟩)
-  | succ n =>
-    unfold readHexPair
-    rw [if_neg (by omega)]
-    exact tr_bind (tr_readByteRaw_hit pk) (fun a => tr_false (fun _ h => h)) (fun e sc h => h)
+theorem fuelOf_succ (s : Scanner) : fuelOf s = (s.src.length + s.peek.length + 7) + 1 := rfl
+
+theorem tr_readHexPair_hit (pk : List UInt8) (n i : Nat) (out : UInt8) (hi : i < 2) :
+    Tr (fun sc => HitSt t sc ∧ sc.peek = pk) (readHexPair (n + 1) i out) (RdH t pk) := by
+  unfold readHexPair
+  rw [if_neg (by omega)]
+  exact tr_bind (tr_readByteRaw_hit pk) (fun a => tr_false (fun _ h => h)) (fun e sc h => h)
 
 theorem tr_readByteEexec_clean (pk : List UInt8) :
     Tr (fun sc => Clean t sc ∧ sc.peek = pk) readByteEexec (RdC t pk) := by
@@ -869,7 +869,9 @@ theorem tr_readByteEexec_hit (pk : List UInt8) :
     Tr (fun sc => HitSt t sc ∧ sc.peek = pk) readByteEexec (RdH t pk) := by
   unfold readByteEexec
   refine tr_bind tr_getS' (fun s => ?_) (fun e sc h => h.elim)
-  exact tr_ite (tr_readByteRaw_hit pk) (tr_readHexPair_hit pk _ _ _ (by omega))
+  refine tr_ite (tr_readByteRaw_hit pk) ?_
+  rw [fuelOf_succ]
+  exact tr_readHexPair_hit pk _ _ _ (by omega)
 
 theorem tr_readByte_clean (pk : List UInt8) :
     Tr (fun sc => Clean t sc ∧ sc.peek = pk) readByte (RdC t pk) := by
@@ -1102,6 +1104,302 @@ end PsVerif.Proofs.IoErr
 namespace PsVerif.Proofs.IoErr
 open PsVerif.Model PsVerif.Model.Scan
 
+/-! ### pass 3: the number of bytes left never grows (for the fuel of `skipWhiteSpace`) -/
+
+/-- bytes not yet consumed: source plus peek buffer -/
+def mu (sc : Scanner) : Nat := sc.src.length + sc.peek.length
+
+/-- the action never increases `mu` -/
+def Mn {α : Type} (m : SM α) : Prop := ∀ sc, mu (m sc).2 ≤ mu sc
+
+/-- … and consumes at least one byte when it succeeds -/
+def Mn1 {α : Type} (m : SM α) : Prop :=
+  ∀ sc, mu (m sc).2 ≤ mu sc ∧ (∀ a, (m sc).1 = .ok a → mu (m sc).2 + 1 ≤ mu sc)
+
+theorem Mn1.mn {α : Type} {m : SM α} (h : Mn1 m) : Mn m := fun sc => (h sc).1
+
+theorem mn_bind {α β : Type} {m : SM α} {f : α → SM β} (h1 : Mn m) (h2 : ∀ a, Mn (f a)) : Mn (m >>= f) := by
+  intro sc
+  rw [bind_eq]
+  have := h1 sc
+  generalize m sc = p at this
+  obtain ⟨r, s1⟩ := p
+  cases r with
+  | ok a => exact Nat.le_trans (h2 a s1) this
+  | error e => exact this
+
+theorem mn1_bind {α β : Type} {m : SM α} {f : α → SM β} (h1 : Mn1 m) (h2 : ∀ a, Mn (f a)) : Mn1 (m >>= f) := by
+  intro sc
+  rw [bind_eq]
+  have := h1 sc
+  generalize m sc = p at this
+  obtain ⟨r, s1⟩ := p
+  cases r with
+  | ok a =>
+    have h3 := h2 a s1
+    have h4 := this.2 a rfl
+    dsimp only at h4 this ⊢
+    exact ⟨by omega, fun _ _ => by omega⟩
+  | error e => exact ⟨this.1, fun a ha => by cases ha⟩
+
+theorem mn_pure {α : Type} (a : α) : Mn (pure a : SM α) := fun _ => Nat.le_refl _
+theorem mn_fail {α : Type} (e : Err) : Mn (fail e : SM α) := fun _ => Nat.le_refl _
+theorem mn_getS : Mn getS := fun _ => Nat.le_refl _
+theorem mn_modS {f : Scanner → Scanner} (h : ∀ sc, mu (f sc) ≤ mu sc) : Mn (modS f) := h
+
+theorem mn_attempt {α : Type} {m : SM α} (h : Mn m) : Mn (attempt m) := fun sc => h sc
+
+theorem mn_ite {α : Type} {c : Prop} [Decidable c] {m1 m2 : SM α} (h1 : Mn m1) (h2 : Mn m2) :
+    Mn (if c then m1 else m2) := by
+  split
+  · exact h1
+  · exact h2
+
+theorem mn1_ite {α : Type} {c : Prop} [Decidable c] {m1 m2 : SM α} (h1 : Mn1 m1) (h2 : Mn1 m2) :
+    Mn1 (if c then m1 else m2) := by
+  split
+  · exact h1
+  · exact h2
+
+theorem mn1_fail {α : Type} (e : Err) : Mn1 (fail e : SM α) :=
+  fun _ => ⟨Nat.le_refl _, fun a ha => by cases ha⟩
+
+/-- an action that looks at the current state first -/
+theorem mn_getS_bind {β : Type} {f : Scanner → SM β} (h : ∀ sc, mu (f sc sc).2 ≤ mu sc) : Mn (getS >>= f) := by
+  intro sc
+  rw [run_getS_bind]
+  exact h sc
+
+theorem mn1_getS_bind {β : Type} {f : Scanner → SM β}
+    (h : ∀ sc, mu (f sc sc).2 ≤ mu sc ∧ (∀ a, (f sc sc).1 = .ok a → mu (f sc sc).2 + 1 ≤ mu sc)) :
+    Mn1 (getS >>= f) := by
+  intro sc
+  rw [run_getS_bind]
+  exact h sc
+
+theorem mn1_readByteRaw : Mn1 readByteRaw := by
+  intro sc
+  unfold readByteRaw
+  split
+  · split
+    · rename_i b rest hp
+      refine ⟨?_, fun _ _ => ?_⟩ <;> simp only [mu, hp, List.length_cons] <;> omega
+    · exact ⟨Nat.le_refl _, fun b hb => by cases hb⟩
+  · split
+    · split
+      · rename_i b rest hs
+        refine ⟨?_, fun _ _ => ?_⟩ <;> simp only [mu, hs, List.length_cons] <;> omega
+      · exact ⟨Nat.le_refl _, fun b hb => by cases hb⟩
+    · split
+      · rename_i b rest hs
+        refine ⟨?_, fun _ _ => ?_⟩ <;> simp only [mu, hs, List.length_cons] <;> omega
+      · exact ⟨Nat.le_refl _, fun b hb => by cases hb⟩
+
+theorem mn_readHexPair : ∀ fuel i out, Mn (readHexPair fuel i out) := by
+  intro fuel
+  induction fuel with
+  | zero => intro i out; unfold readHexPair; exact mn_fail _
+  | succ n ih =>
+    intro i out
+    unfold readHexPair
+    refine mn_ite (mn_pure _) (mn_bind mn1_readByteRaw.mn (fun a => ?_))
+    refine mn_ite (ih _ _) ?_
+    split
+    · exact ih _ _
+    · exact mn_fail _
+
+theorem mn1_readHexPair (fuel i : Nat) (out : UInt8) (hi : i < 2) : Mn1 (readHexPair fuel i out) := by
+  cases fuel with
+  | zero => unfold readHexPair; exact mn1_fail _
+  | succ n =>
+    unfold readHexPair
+    rw [if_neg (by omega)]
+    refine mn1_bind mn1_readByteRaw (fun a => ?_)
+    refine mn_ite (mn_readHexPair _ _ _) ?_
+    split
+    · exact mn_readHexPair _ _ _
+    · exact mn_fail _
+
+theorem mn1_readByteEexec : Mn1 readByteEexec := by
+  unfold readByteEexec
+  refine mn1_getS_bind (fun sc => ?_)
+  split
+  · exact mn1_readByteRaw sc
+  · exact mn1_readHexPair _ _ _ (by omega) sc
+
+theorem mn1_readByte : Mn1 readByte := by
+  unfold readByte
+  refine mn1_getS_bind (fun sc => ?_)
+  split
+  · exact mn1_readByteRaw sc
+  · refine mn1_bind mn1_readByteEexec (fun a => mn_bind mn_getS (fun s => ?_)) sc
+    generalize Cipher.decStep s.r a = pr
+    obtain ⟨p, r'⟩ := pr
+    dsimp only
+    exact mn_bind (mn_modS (fun sc => Nat.le_refl _)) (fun _ => mn_pure _)
+
+theorem lineCol_mu (b : UInt8) (s : Scanner) : mu (lineCol b s) = mu s := by
+  have h := lineCol_sim b s
+  unfold mu
+  rw [h.1.2.2.1, h.2]
+
+theorem mn_lineCol (a : UInt8) : Mn (do modS (lineCol a); (pure a : SM UInt8)) :=
+  mn_bind (mn_modS (fun sc => Nat.le_of_eq (lineCol_mu a sc))) (fun _ => mn_pure _)
+
+theorem mn1_next : Mn1 next := by
+  rw [next_unfold]
+  refine mn1_getS_bind (fun sc => ?_)
+  by_cases hc : (!sc.peek.isEmpty && !sc.regurgitate) = true
+  · rw [if_pos hc]
+    cases hp : sc.peek with
+    | nil => rw [hp] at hc; simp at hc
+    | cons b rest =>
+      dsimp only
+      simp only [bind_eq, run_modS, run_pure, lineCol_mu]
+      refine ⟨?_, fun _ _ => ?_⟩ <;> simp only [mu, hp, List.length_cons] <;> omega
+  · rw [if_neg hc]
+    exact mn1_bind mn1_readByte (fun a => mn_lineCol a) sc
+
+theorem mn_peek : Mn peek := by
+  unfold peek
+  refine mn_getS_bind (fun sc => ?_)
+  cases hp : sc.peek with
+  | nil =>
+    dsimp only
+    rw [bind_eq]
+    have := mn1_readByte sc
+    generalize readByte sc = p at this
+    obtain ⟨r, s1⟩ := p
+    cases r with
+    | error e => exact this.1
+    | ok b =>
+      have h2 := this.2 b rfl
+      dsimp only at h2 ⊢
+      simp only [run_modS_bind, run_pure]
+      simp only [mu, List.length_append, List.length_cons, List.length_nil] at h2 ⊢
+      omega
+  | cons b rest => exact Nat.le_refl _
+
+theorem mn_peekN (n : Nat) : ∀ fuel, Mn (peekN n fuel) := by
+  intro fuel
+  induction fuel with
+  | zero => unfold peekN; exact mn_bind mn_getS (fun s => mn_pure _)
+  | succ k ih =>
+    unfold peekN
+    refine mn_bind mn_getS (fun s => mn_ite (mn_pure _) ?_)
+    intro sc
+    rw [bind_eq]
+    have := mn1_readByte sc
+    unfold attempt
+    generalize readByte sc = p at this
+    obtain ⟨r, s1⟩ := p
+    cases r with
+    | error e =>
+      dsimp only
+      exact this.1
+    | ok b =>
+      have h2 := this.2 b rfl
+      dsimp only at h2 ⊢
+      rw [run_modS_bind]
+      refine Nat.le_trans (ih _) ?_
+      simp only [mu, List.length_append, List.length_cons, List.length_nil] at h2 ⊢
+      omega
+
+theorem mn_lookingAt (pat : List UInt8) : Mn (lookingAt pat) := by
+  unfold lookingAt
+  exact mn_bind (mn_peekN _ _) (fun _ => mn_pure _)
+
+theorem mn_skipByte : Mn skipByte := by
+  unfold skipByte
+  exact mn_bind (mn_attempt mn1_next.mn) (fun _ => mn_pure _)
+
+theorem mn_skipN : ∀ n, Mn (skipN n) := by
+  intro n
+  induction n with
+  | zero => unfold skipN; exact mn_pure _
+  | succ k ih => unfold skipN; exact mn_bind mn_skipByte (fun _ => ih)
+
+theorem mn_skipRequiredByte (x : UInt8) : Mn (skipRequiredByte x) := by
+  unfold skipRequiredByte
+  exact mn_bind mn1_next.mn (fun _ => mn_ite (mn_fail _) (mn_pure _))
+
+theorem mn_skipOptionalByte (x : UInt8) : Mn (skipOptionalByte x) := by
+  unfold skipOptionalByte
+  refine mn_bind (mn_attempt mn_peek) (fun r => ?_)
+  split
+  · exact mn_ite mn_skipByte (mn_pure _)
+  · exact mn_pure _
+
+theorem mn_skipToEOL : ∀ fuel, Mn (skipToEOL fuel) := by
+  intro fuel
+  induction fuel with
+  | zero => unfold skipToEOL; exact mn_pure _
+  | succ k ih =>
+    unfold skipToEOL
+    refine mn_bind (mn_attempt mn1_next.mn) (fun r => ?_)
+    split
+    · exact mn_pure _
+    · exact mn_ite (mn_pure _) (mn_ite (mn_skipOptionalByte _) ih)
+
+theorem mn_readCommentKey : ∀ fuel acc, Mn (readCommentKey fuel acc) := by
+  intro fuel
+  induction fuel with
+  | zero => intro acc; unfold readCommentKey; exact mn_pure _
+  | succ k ih =>
+    intro acc
+    unfold readCommentKey
+    refine mn_bind (mn_attempt mn_peek) (fun r => ?_)
+    split
+    · exact mn_pure _
+    · exact mn_fail _
+    · exact mn_ite (mn_pure _) (mn_bind mn_skipByte (fun _ => mn_ite (mn_pure _) (ih _)))
+
+theorem mn_skipBlanks : ∀ fuel, Mn (skipBlanks fuel) := by
+  intro fuel
+  induction fuel with
+  | zero => unfold skipBlanks; exact mn_pure _
+  | succ k ih =>
+    unfold skipBlanks
+    refine mn_bind (mn_attempt mn_peek) (fun r => ?_)
+    split
+    · exact mn_pure _
+    · exact mn_fail _
+    · exact mn_ite (mn_pure _) (mn_bind mn_skipByte (fun _ => ih))
+
+theorem mn_readLine : ∀ fuel acc, Mn (readLine fuel acc) := by
+  intro fuel
+  induction fuel with
+  | zero => intro acc; unfold readLine; exact mn_pure _
+  | succ k ih =>
+    intro acc
+    unfold readLine
+    refine mn_bind (mn_attempt mn1_next.mn) (fun r => ?_)
+    split
+    · exact mn_pure _
+    · exact mn_fail _
+    · exact mn_ite (mn_pure _) (mn_ite (mn_bind (mn_skipOptionalByte _) (fun _ => mn_pure _)) (ih _))
+
+theorem mn_readCommentValue : ∀ fuel acc, Mn (readCommentValue fuel acc) := by
+  intro fuel
+  induction fuel with
+  | zero => intro acc; unfold readCommentValue; exact mn_pure _
+  | succ k ih =>
+    intro acc
+    unfold readCommentValue
+    refine mn_bind mn_getS (fun s => mn_bind (mn_skipBlanks _) (fun _ => mn_bind mn_getS (fun s => ?_)))
+    refine mn_bind (mn_readLine _ _) (fun acc' => mn_bind (mn_lookingAt _) (fun c => ?_))
+    exact mn_ite (mn_bind (mn_skipN _) (fun _ => ih _)) (mn_pure _)
+
+/-- `Mn` as a triple -/
+theorem Mn.tr {α : Type} {m : SM α} (h : Mn m) (M : Nat) :
+    Tr (fun sc => mu sc ≤ M) m (fun _ sc' => mu sc' ≤ M) :=
+  fun sc hm => Nat.le_trans (h sc) hm
+
+end PsVerif.Proofs.IoErr
+
+namespace PsVerif.Proofs.IoErr
+open PsVerif.Model PsVerif.Model.Scan
+
 section
 variable {t : String}
 
@@ -1118,7 +1416,7 @@ theorem tr_exists {α β : Type} {P : β → Scanner → Prop} {m : SM α} {Q : 
   exact h x sc hx
 
 theorem iof_eof {P : Prop} (h : IoF t .eof) : P := by
-  rcases h with h | h <;> cases h
+  cases h
 
 theorem ec_eof {sc : Scanner} (h : EC t .eof sc) : Clean t sc := by
   rcases h with h | h
@@ -1181,12 +1479,14 @@ theorem tr_peekN_clean (n : Nat) : ∀ fuel pk,
 
 theorem tr_peekN_full (P : Scanner → Prop) (n fuel : Nat) :
     Tr (fun sc => P sc ∧ n ≤ sc.peek.length) (peekN n (fuel + 1))
-      (Post (fun _ sc' => P sc' ∧ n ≤ sc'.peek.length) (fun _ _ => False)) := by
+      (Post (fun bb sc' => (P sc' ∧ n ≤ sc'.peek.length) ∧ bb = sc'.peek.take n) (fun _ _ => False)) := by
   unfold peekN
   refine tr_bind tr_getS (fun s => ?_) (fun e sc h => h.elim)
   refine tr_assume (φ := n ≤ s.peek.length) (fun sc h => by obtain ⟨rfl, _, hp⟩ := h; exact hp) (fun hp => ?_)
   rw [if_pos hp]
-  exact tr_pure (fun sc h => h.2)
+  refine tr_pure (fun sc h => ?_)
+  obtain ⟨rfl, h2⟩ := h
+  exact ⟨h2, rfl⟩
 
 theorem tr_peekN_dead (n fuel : Nat) :
     Tr (Dead t) (peekN n fuel) (Post (fun bb sc' => bb = [] ∧ Dead t sc') (fun _ _ => False)) := by
@@ -1217,7 +1517,7 @@ theorem tr_peekN_dead (n fuel : Nat) :
 /-- postcondition of `LookingAt` from a clean state with peek buffer `pk` -/
 def LA (t : String) (pat pk : List UInt8) : Except Err Bool → Scanner → Prop :=
   Post (fun c sc' => (∃ ext, sc'.peek = pk ++ ext) ∧
-      ((Clean t sc' ∧ (c = true → pat.length ≤ sc'.peek.length)) ∨
+      ((Clean t sc' ∧ (c = true → pat.length ≤ sc'.peek.length ∧ sc'.peek.take pat.length = pat)) ∨
        (HitSt t sc' ∧ c = false ∧ sc'.peek.length < pat.length))) (fun _ _ => False)
 
 theorem tr_lookingAt_clean (pat pk : List UInt8) :
@@ -1232,6 +1532,7 @@ theorem tr_lookingAt_clean (pat pk : List UInt8) :
     refine ⟨hc, fun hb => ?_⟩
     have : bb = pat := by simpa using hb
     have hl : bb.length = pat.length := by rw [this]
+    refine ⟨?_, by rw [← hbb]; exact this⟩
     rw [hbb, List.length_take] at hl
     omega
   · right
@@ -1247,10 +1548,12 @@ theorem tr_lookingAt_clean (pat pk : List UInt8) :
 
 theorem tr_lookingAt_full (P : Scanner → Prop) (pat : List UInt8) :
     Tr (fun sc => P sc ∧ pat.length ≤ sc.peek.length) (lookingAt pat)
-      (Post (fun _ sc' => P sc' ∧ pat.length ≤ sc'.peek.length) (fun _ _ => False)) := by
+      (Post (fun c sc' => (P sc' ∧ pat.length ≤ sc'.peek.length) ∧ c = (sc'.peek.take pat.length == pat))
+        (fun _ _ => False)) := by
   unfold lookingAt
   refine tr_bind (tr_peekN_full P pat.length pat.length) (fun bb => ?_) (fun e sc h => h.elim)
-  exact tr_pure (fun sc h => h)
+  refine tr_pure (fun sc h => ?_)
+  exact ⟨h.1, by rw [h.2]⟩
 
 theorem tr_lookingAt_dead (pat : List UInt8) :
     Tr (Dead t) (lookingAt pat) (Post (fun c sc' => c = (([] : List UInt8) == pat) ∧ Dead t sc') (fun _ _ => False)) := by
@@ -1457,7 +1760,7 @@ theorem tr_readCommentValue_clean : ∀ fuel acc,
         | error e => exact this
         | ok c =>
           rcases this.2 with h2 | h2
-          · exact Or.inl h2
+          · exact Or.inl ⟨h2.1, fun hc => (h2.2 hc).1⟩
           · exact Or.inr h2.2.1
       · exact tr_post (tr_lookingAt_dead _) (fun c sc h => Or.inr h.1) (fun _ _ h => h)
     · refine tr_ite' (fun hc => ?_) (fun _ => tr_pure (fun _ _ => trivial))
@@ -1466,13 +1769,123 @@ theorem tr_readCommentValue_clean : ∀ fuel acc,
       · exact ⟨h.1, h.2 hc⟩
       · rw [hc] at h; cases h
 
-theorem tr_readStructuredComment_clean :
-    Tr (fun sc => Clean t sc ∧ 2 ≤ sc.peek.length) readStructuredComment
-      (Post (fun r sc' => r = none → (Clean t sc' ∨ Dead t sc')) (fun _ _ => False)) := by
-  unfold readStructuredComment
-  refine tr_bind (tr_lookingAt_full (Clean t) [37, 37]) (fun c => ?_) (fun e sc h => h.elim)
-  refine tr_ite (tr_pure (fun sc h _ => Or.inl h.1)) ?_
-  refine tr_bind (tr_skipN_clean 2) (fun _ => ?_) (fun e sc h => h.elim)
+/-- a triple together with the bound on the bytes left -/
+theorem tr_mu {α : Type} {P : Scanner → Prop} {m : SM α} {A : α → Scanner → Prop} {E : Err → Scanner → Prop}
+    (h : Tr P m (Post A E)) (hm : Mn m) (M : Nat) :
+    Tr (fun sc => P sc ∧ mu sc ≤ M) m
+      (Post (fun a sc' => A a sc' ∧ mu sc' ≤ M) (fun e sc' => E e sc' ∧ mu sc' ≤ M)) := by
+  intro sc hp
+  have h1 := h sc hp.1
+  have h2 := Nat.le_trans (hm sc) hp.2
+  generalize m sc = p at h1 h2
+  obtain ⟨r, s1⟩ := p
+  cases r with
+  | ok a => exact ⟨h1, h2⟩
+  | error e => exact ⟨h1, h2⟩
+
+/-- `SkipByte` with a non-empty peek buffer consumes exactly one byte -/
+theorem tr_skipByte_mu (j M : Nat) :
+    Tr (fun sc => Clean t sc ∧ j + 1 ≤ sc.peek.length ∧ mu sc ≤ M + 1) skipByte
+      (Post (fun _ sc' => Clean t sc' ∧ j ≤ sc'.peek.length ∧ mu sc' ≤ M) (fun _ _ => False)) := by
+  intro sc ⟨hc, hl, hm⟩
+  cases hp : sc.peek with
+  | nil => rw [hp] at hl; simp at hl
+  | cons b rest =>
+    have := tr_skipByte_cons (fun s => Clean t s ∧ s.src.length = sc.src.length)
+      (fun a b h k => ⟨h.clean k.1, by rw [h.2.2.1]; exact k.2⟩) (fun _ h => h.1.2.2) b rest sc ⟨⟨hc, rfl⟩, hp⟩
+    generalize skipByte sc = p at this
+    obtain ⟨r, s1⟩ := p
+    cases r with
+    | error e => exact this
+    | ok _ =>
+      obtain ⟨⟨h1, h2⟩, h3⟩ := this
+      refine ⟨h1, ?_, ?_⟩
+      · show j ≤ s1.peek.length
+        rw [h3]; rw [hp] at hl; simpa using hl
+      · show mu s1 ≤ M
+        unfold mu at hm ⊢
+        rw [h2, h3]; rw [hp] at hm
+        simp only [List.length_cons] at hm
+        omega
+
+theorem tr_skipN_mu (k M : Nat) :
+    Tr (fun sc => Clean t sc ∧ k + 1 ≤ sc.peek.length ∧ mu sc ≤ M + 1) (skipN (k + 1))
+      (Post (fun _ sc' => Clean t sc' ∧ mu sc' ≤ M) (fun _ _ => False)) := by
+  unfold skipN
+  refine tr_bind (tr_skipByte_mu k M) (fun _ => ?_) (fun e sc h => h.elim)
+  refine tr_conseq (fun sc h => ⟨⟨h.1, h.2.1⟩, h.2.2⟩) (tr_mu (tr_skipN_clean k) (mn_skipN k) M) ?_
+  intro r sc h
+  cases r with
+  | ok _ => exact h
+  | error e => exact h.1
+
+/-- `SkipRequiredByte` on the byte that `Peek` has just shown -/
+theorem tr_skipRequiredByte_mu (x : UInt8) (M : Nat) :
+    Tr (fun sc => Clean t sc ∧ (∃ rest, sc.peek = x :: rest) ∧ mu sc ≤ M + 1) (skipRequiredByte x)
+      (Post (fun _ sc' => Clean t sc' ∧ mu sc' ≤ M) (fun _ _ => False)) := by
+  intro sc ⟨hc, ⟨rest, hp⟩, hm⟩
+  have hn := tr_next_cons (fun s => Clean t s ∧ s.src.length = sc.src.length)
+    (fun a b h k => ⟨h.clean k.1, by rw [h.2.2.1]; exact k.2⟩) (fun _ h => h.1.2.2) x rest
+  have : Tr (fun s => s = sc) (skipRequiredByte x)
+      (Post (fun _ sc' => Clean t sc' ∧ mu sc' ≤ M) (fun _ _ => False)) := by
+    unfold skipRequiredByte
+    refine tr_bind (tr_pre hn (fun s h => by subst h; exact ⟨⟨hc, rfl⟩, hp⟩)) (fun a => ?_) (fun e sc h => h.elim)
+    refine tr_ite' (fun hne => tr_false (fun s h => ?_)) (fun _ => tr_pure (fun s h => ?_))
+    · rw [h.1] at hne; simp at hne
+    · obtain ⟨_, ⟨h1, h2⟩, h3⟩ := h
+      refine ⟨h1, ?_⟩
+      unfold mu at hm ⊢
+      rw [h2, h3]; rw [hp] at hm
+      simp only [List.length_cons] at hm
+      omega
+  exact this sc rfl
+
+theorem tr_skipComment_mu (M : Nat) :
+    Tr (fun sc => Clean t sc ∧ (∃ rest, sc.peek = 37 :: rest) ∧ mu sc ≤ M + 1) skipComment
+      (Post (fun _ sc' => (Clean t sc' ∨ Dead t sc') ∧ mu sc' ≤ M) (fun _ _ => False)) := by
+  unfold skipComment
+  refine tr_bind (tr_attempt (tr_skipRequiredByte_mu 37 M)) (fun r => ?_) (fun e sc h => h.elim)
+  cases r with
+  | ok _ =>
+    dsimp only
+    refine tr_bind tr_getS' (fun s => ?_) (fun e sc h => h.elim)
+    exact tr_post (tr_mu (tr_skipToEOL_clean _) (mn_skipToEOL _) M) (fun _ _ h => h) (fun _ _ h => h.1)
+  | error e => exact tr_false (fun _ h => h)
+
+/-- the part of `readStructuredComment` after `%%` -/
+def rscTail : SM (Option (List UInt8 × List UInt8)) := do
+  let s ← getS
+  match ← attempt (readCommentKey (fuelOf s) []) with
+  | .error _ => do let s ← getS; skipToEOL (fuelOf s); pure none
+  | .ok key =>
+    if key.isEmpty then do let s ← getS; skipToEOL (fuelOf s); pure none
+    else do
+      let s ← getS
+      match ← attempt (readCommentValue (fuelOf s) []) with
+      | .error _ => pure none
+      | .ok val => pure (some (key, val))
+
+theorem readStructuredComment_eq : readStructuredComment = (do
+    if !(← lookingAt [37, 37]) then pure none
+    else do
+      skipN 2
+      rscTail) := rfl
+
+theorem mn_rscTail : Mn rscTail := by
+  unfold rscTail
+  refine mn_bind mn_getS (fun s => mn_bind (mn_attempt (mn_readCommentKey _ _)) (fun r => ?_))
+  have eol : Mn (do let s ← getS; skipToEOL (fuelOf s); pure (none : Option (List UInt8 × List UInt8))) :=
+    mn_bind mn_getS (fun s => mn_bind (mn_skipToEOL _) (fun _ => mn_pure _))
+  split
+  · exact eol
+  · refine mn_ite eol (mn_bind mn_getS (fun s => mn_bind (mn_attempt (mn_readCommentValue _ _)) (fun r => ?_)))
+    split
+    · exact mn_pure _
+    · exact mn_pure _
+
+theorem tr_rscTail_clean :
+    Tr (Clean t) rscTail (Post (fun r sc' => r = none → (Clean t sc' ∨ Dead t sc')) (fun _ _ => False)) := by
+  unfold rscTail
   refine tr_bind tr_getS' (fun s => ?_) (fun e sc h => h.elim)
   refine tr_bind (tr_attempt (tr_readCommentKey_clean _ _)) (fun r => ?_) (fun e sc h => h.elim)
   have eol : ∀ (P : Scanner → Prop), (∀ sc, P sc → Clean t sc ∨ Dead t sc) →
@@ -1505,6 +1918,34 @@ theorem tr_readStructuredComment_clean :
       dsimp only
       exact tr_pure (fun sc h hn => by cases hn)
 
+/-- `readStructuredComment` on `%%…`: at least one byte is consumed; when no comment is
+delivered the state is clean or dead -/
+theorem tr_readStructuredComment_clean (M : Nat) :
+    Tr (fun sc => Clean t sc ∧ sc.peek.take 2 = [37, 37] ∧ mu sc ≤ M + 1) readStructuredComment
+      (Post (fun r sc' => mu sc' ≤ M ∧ (r = none → (Clean t sc' ∨ Dead t sc'))) (fun _ _ => False)) := by
+  rw [readStructuredComment_eq]
+  have hlen : ∀ sc : Scanner, sc.peek.take 2 = [37, 37] → 2 ≤ sc.peek.length := by
+    intro sc h
+    have := congrArg List.length h
+    rw [List.length_take] at this
+    simp at this
+    omega
+  refine tr_bind (tr_pre (tr_lookingAt_full (fun sc => Clean t sc ∧ sc.peek.take 2 = [37, 37] ∧ mu sc ≤ M + 1) [37, 37])
+    (fun sc h => ⟨h, hlen sc h.2.1⟩)) (fun c => ?_) (fun e sc h => h.elim)
+  refine tr_ite' (fun hc => tr_false (fun sc h => ?_)) (fun _ => ?_)
+  · have hc' : c = false := by simpa using hc
+    have h2 := h.2
+    rw [hc'] at h2
+    have h3 : ([37, 37] : List UInt8).length = 2 := rfl
+    rw [h3, h.1.1.2.1] at h2
+    simp at h2
+  · refine tr_bind (tr_pre (tr_skipN_mu 1 M) (fun sc h => ⟨h.1.1.1, h.1.2, h.1.1.2.2⟩)) (fun _ => ?_) (fun e sc h => h.elim)
+    refine tr_conseq (fun sc h => h) (tr_mu tr_rscTail_clean mn_rscTail M) ?_
+    intro r sc h
+    cases r with
+    | ok r => exact ⟨h.2, h.1⟩
+    | error e => exact h.1
+
 end
 end PsVerif.Proofs.IoErr
 
@@ -1522,13 +1963,25 @@ theorem tr_fail_bind {α β : Type} {P : Scanner → Prop} {e : Err} {f : α →
 
 /-! #### `SkipWhiteSpace` -/
 
-theorem tr_skipWhiteSpace_dead (fuel : Nat) :
-    Tr (Dead t) (skipWhiteSpace fuel) (Post (fun _ _ => False) (fun e _ => IoF t e)) := by
-  cases fuel with
-  | zero => unfold skipWhiteSpace; exact tr_fail (fun _ _ => Or.inr rfl)
-  | succ k =>
-    unfold skipWhiteSpace
-    exact tr_bind tr_peek_dead (fun b => tr_false (fun _ h => h)) (fun e sc h => h.1)
+theorem peek_single {b : UInt8} {rest ext pk : List UInt8} (h : pk = (b :: rest) ++ ext) (hl : pk.length < 2) :
+    pk = [b] := by
+  subst h
+  simp at hl
+  have : rest ++ ext = [] := by
+    cases h : rest ++ ext with
+    | nil => rfl
+    | cons x xs =>
+      have := congrArg List.length h
+      simp at this
+      omega
+  simp [this]
+
+
+
+theorem tr_skipWhiteSpace_dead (k : Nat) :
+    Tr (Dead t) (skipWhiteSpace (k + 1)) (Post (fun _ _ => False) (fun e _ => IoF t e)) := by
+  unfold skipWhiteSpace
+  exact tr_bind tr_peek_dead (fun b => tr_false (fun _ h => h)) (fun e sc h => h.1)
 
 /-- postcondition of `SkipWhiteSpace` from a clean state: either a structured comment has been
 recorded, or the state is clean again with the next byte in the peek buffer -/
@@ -1536,51 +1989,66 @@ def SW (t : String) : Except Err Unit → Scanner → Prop :=
   Post (fun _ sc' => sc'.dsc ≠ [] ∨ (Clean t sc' ∧ sc'.peek ≠ []))
     (fun e sc' => sc'.dsc ≠ [] ∨ ECw t e sc')
 
-theorem tr_skipWhiteSpace_clean : ∀ fuel, Tr (Clean t) (skipWhiteSpace fuel) (SW t) := by
+/-- the fuel of `SkipWhiteSpace` is never used up: every turn consumes a byte -/
+theorem tr_skipWhiteSpace_clean : ∀ fuel,
+    Tr (fun sc => Clean t sc ∧ mu sc < fuel) (skipWhiteSpace fuel) (SW t) := by
   intro fuel
   induction fuel with
-  | zero => unfold skipWhiteSpace; exact tr_fail (fun sc h => Or.inr (Or.inl h))
+  | zero => exact tr_false (fun sc h => Nat.not_lt_zero _ h.2)
   | succ k ih =>
-    have cont : Tr (fun sc => Clean t sc ∨ Dead t sc) (skipWhiteSpace k) (SW t) :=
-      tr_or ih (tr_post (tr_skipWhiteSpace_dead k) (fun _ _ h => h.elim) (fun _ _ h => Or.inr (Or.inr h)))
     unfold skipWhiteSpace
-    refine tr_bind tr_peek_clean (fun b => ?_) (fun e sc h => Or.inr (ec_w h))
+    refine tr_bind (tr_pre (tr_mu tr_peek_clean mn_peek k) (fun sc h => ⟨h.1, Nat.le_of_lt_succ h.2⟩))
+      (fun b => ?_) (fun e sc h => Or.inr (ec_w h.1))
+    -- the byte just peeked is still there, so a unit of fuel is left
+    refine tr_assume (φ := 1 ≤ k) (fun sc h => ?_) (fun hk => ?_)
+    · obtain ⟨⟨_, rest, hr⟩, hm⟩ := h
+      unfold mu at hm
+      rw [hr] at hm
+      simp only [List.length_cons] at hm
+      omega
+    obtain ⟨k', rfl⟩ : ∃ k', k = k' + 1 := ⟨k - 1, by omega⟩
+    have cont : Tr (fun sc => (Clean t sc ∨ Dead t sc) ∧ mu sc ≤ k') (skipWhiteSpace (k' + 1)) (SW t) := by
+      intro sc h
+      rcases h.1 with h1 | h1
+      · exact ih sc ⟨h1, Nat.lt_succ_of_le h.2⟩
+      · exact tr_post (tr_skipWhiteSpace_dead k') (fun _ _ h => h.elim) (fun _ _ h => Or.inr (Or.inr h)) sc h1
     refine tr_ite ?_ ?_
-    · exact tr_bind (tr_skipByte_clean b) (fun _ => ih) (fun e sc h => h.elim)
-    refine tr_ite ?_ (tr_pure (fun sc h => Or.inr ⟨h.1, by obtain ⟨r, hr⟩ := h.2; rw [hr]; simp⟩))
+    · refine tr_bind (tr_pre (tr_skipByte_mu (t := t) 0 k') (fun sc h => ?_)) (fun _ => ?_) (fun e sc h => h.elim)
+      · obtain ⟨⟨hc, rest, hr⟩, hm⟩ := h
+        exact ⟨hc, by rw [hr]; simp, hm⟩
+      · exact tr_pre ih (fun sc h => ⟨h.1, Nat.lt_succ_of_le h.2.2⟩)
+    refine tr_ite' (fun hb => ?_) (fun _ => tr_pure (fun sc h => Or.inr ⟨h.1.1, by obtain ⟨r, hr⟩ := h.1.2; rw [hr]; simp⟩))
+    have hb' : b = 37 := by simpa using hb
+    subst hb'
     refine tr_bind tr_getS' (fun s => ?_) (fun e sc h => h.elim)
-    refine tr_bind (A := fun c sc' => (Clean t sc' ∧ (c = true → 2 ≤ sc'.peek.length)) ∨
-        (HitSt t sc' ∧ c = false ∧ sc'.peek = [b])) (E := fun _ _ => False) ?_ (fun c => ?_) (fun e sc h => h.elim)
-    · refine tr_pre (tr_exists (P := fun rest sc => Clean t sc ∧ sc.peek = b :: rest) (fun rest => ?_))
-        (fun sc h => by obtain ⟨hc, r, hr⟩ := h; exact ⟨r, hc, hr⟩)
-      refine tr_post (tr_lookingAt_clean [37, 37] (b :: rest)) (fun c sc h => ?_) (fun _ _ h => h)
-      obtain ⟨⟨ext, hext⟩, h2⟩ := h
-      rcases h2 with h2 | h2
-      · exact Or.inl h2
-      · refine Or.inr ⟨h2.1, h2.2.1, ?_⟩
-        have hl := h2.2.2
-        rw [hext] at hl ⊢
-        simp at hl
-        have : rest ++ ext = [] := by
-          cases h : rest ++ ext with
-          | nil => rfl
-          | cons x xs =>
-            have := congrArg List.length h
-            simp at this
-            omega
-        simp [this]
+    refine tr_bind (A := fun c sc' => ((Clean t sc' ∧ (c = true → sc'.peek.take 2 = [37, 37]) ∧ (∃ rest, sc'.peek = 37 :: rest)) ∨
+        (HitSt t sc' ∧ c = false ∧ sc'.peek = [37])) ∧ mu sc' ≤ k' + 1) (E := fun _ _ => False) ?_ (fun c => ?_) (fun e sc h => h.elim)
+    · intro sc h
+      obtain ⟨⟨hc, rest, hr⟩, hm⟩ := h
+      have h1 := tr_lookingAt_clean (t := t) [37, 37] (37 :: rest) sc ⟨hc, hr⟩
+      have h2 := Nat.le_trans (mn_lookingAt [37, 37] sc) hm
+      generalize lookingAt [37, 37] sc = p at h1 h2
+      obtain ⟨r, s1⟩ := p
+      cases r with
+      | error e => exact h1
+      | ok c =>
+        refine ⟨?_, h2⟩
+        obtain ⟨⟨ext, hext⟩, h3⟩ := h1
+        rcases h3 with h3 | h3
+        · exact Or.inl ⟨h3.1, fun hc => (h3.2 hc).2, ⟨rest ++ ext, by rw [hext]; rfl⟩⟩
+        · exact Or.inr ⟨h3.1, h3.2.1, peek_single hext h3.2.2⟩
     · refine tr_ite' (fun hc => ?_) (fun _ => ?_)
       · have hct : c = true := by
           simp only [Bool.and_eq_true] at hc
           exact hc.2
-        refine tr_bind (A := fun r sc' => I t False sc' ∧ (r = none → (Clean t sc' ∨ Dead t sc')))
+        refine tr_bind (A := fun r sc' => I t False sc' ∧ mu sc' ≤ k' ∧ (r = none → (Clean t sc' ∨ Dead t sc')))
           (E := fun _ _ => False) ?_ (fun r => ?_) (fun e sc h => h.elim)
         · intro sc h
-          have hcl : Clean t sc ∧ 2 ≤ sc.peek.length := by
-            rcases h with h | h
-            · exact ⟨h.1, h.2 hct⟩
-            · rw [hct] at h; cases h.2.1
-          have h1 := tr_readStructuredComment_clean sc hcl
+          have hcl : Clean t sc ∧ sc.peek.take 2 = [37, 37] ∧ mu sc ≤ k' + 1 := by
+            rcases h.1 with h1 | h1
+            · exact ⟨h1.1, h1.2.1 hct, h.2⟩
+            · rw [hct] at h1; cases h1.2.1
+          have h1 := tr_readStructuredComment_clean k' sc hcl
           have h2 := fr_readStructuredComment (t := t) (b := False) sc ⟨⟨hcl.1.1, Or.inl hcl.1.2.1⟩, False.elim⟩
           generalize readStructuredComment sc = p at h1 h2
           obtain ⟨r, s1⟩ := p
@@ -1592,12 +2060,26 @@ theorem tr_skipWhiteSpace_clean : ∀ fuel, Tr (Clean t) (skipWhiteSpace fuel) (
           · refine tr_bind (tr_modS' (P' := I t True) ?_) (fun _ => ?_) (fun e sc h => h.elim)
             · intro sc h
               exact ⟨h.1.1, fun _ => by simp⟩
-            · exact tr_post (fr_skipWhiteSpace k) (fun _ sc h => Or.inl (h.1.2 trivial)) (fun _ sc h => Or.inl (h.1.2 trivial))
-          · exact tr_pre cont (fun sc h => h.2 rfl)
-      · refine tr_bind (A := fun _ sc' => Clean t sc' ∨ Dead t sc') (E := fun _ _ => False) ?_
+            · exact tr_post (fr_skipWhiteSpace (k' + 1)) (fun _ sc h => Or.inl (h.1.2 trivial)) (fun _ sc h => Or.inl (h.1.2 trivial))
+          · exact tr_pre cont (fun sc h => ⟨h.2.2 rfl, h.2.1⟩)
+      · refine tr_bind (A := fun _ sc' => (Clean t sc' ∨ Dead t sc') ∧ mu sc' ≤ k') (E := fun _ _ => False) ?_
           (fun _ => cont) (fun e sc h => h.elim)
-        refine tr_or (tr_pre tr_skipComment_clean (fun sc h => h.1)) ?_
-        exact tr_pre (tr_post (tr_skipComment_hit1 b) (fun _ _ h => Or.inr h) (fun _ _ h => h)) (fun sc h => ⟨h.1, h.2.2⟩)
+        intro sc h
+        rcases h.1 with h1 | h1
+        · exact tr_skipComment_mu k' sc ⟨h1.1, h1.2.2, h.2⟩
+        · have h3 := tr_skipComment_hit1 (t := t) 37 sc ⟨h1.1, h1.2.2⟩
+          generalize skipComment sc = p at h3
+          obtain ⟨r, s1⟩ := p
+          cases r with
+          | error e => exact h3
+          | ok _ =>
+            refine ⟨Or.inr h3, ?_⟩
+            show mu s1 ≤ k'
+            have : mu s1 = 0 := by
+              unfold mu
+              rw [h3.1.2.2.1, h3.2]
+              rfl
+            omega
 
 /-! #### strings and names -/
 
@@ -1651,13 +2133,10 @@ theorem tr_readHexBody_clean : ∀ fuel res first hi,
     · exact tr_fail (fun sc h => Or.inl h)
     · exact tr_ite (ih _ _ _) (ih _ _ _)
 
-theorem tr_readHexBody_dead (fuel : Nat) (res : List UInt8) (first : Bool) (hi : UInt8) :
-    Tr (Dead t) (readHexBody fuel res first hi) (Post (fun _ _ => False) (fun e _ => IoF t e)) := by
-  cases fuel with
-  | zero => unfold readHexBody; exact tr_fail (fun _ _ => Or.inr rfl)
-  | succ k =>
-    unfold readHexBody
-    exact tr_bind tr_next_dead (fun b => tr_false (fun _ h => h)) (fun e sc h => h.1)
+theorem tr_readHexBody_dead (k : Nat) (res : List UInt8) (first : Bool) (hi : UInt8) :
+    Tr (Dead t) (readHexBody (k + 1) res first hi) (Post (fun _ _ => False) (fun e _ => IoF t e)) := by
+  unfold readHexBody
+  exact tr_bind tr_next_dead (fun b => tr_false (fun _ h => h)) (fun e sc h => h.1)
 
 theorem tr_readHexString_clean : Tr (Clean t) readHexString (Post (fun _ sc' => Clean t sc') (EC t)) := by
   unfold readHexString
@@ -1668,7 +2147,9 @@ theorem tr_readHexString_hit1 :
     Tr (fun sc => HitSt t sc ∧ sc.peek = [60]) readHexString (Post (fun _ _ => False) (fun e _ => IoF t e)) := by
   unfold readHexString
   refine tr_bind (tr_skipRequiredByte_hit1 60 60) (fun _ => ?_) (fun e sc h => (h.2 rfl).elim)
-  exact tr_bind tr_getS' (fun s => tr_readHexBody_dead _ _ _ _) (fun e sc h => h.elim)
+  refine tr_bind tr_getS' (fun s => ?_) (fun e sc h => h.elim)
+  rw [fuelOf_succ]
+  exact tr_readHexBody_dead _ _ _ _
 
 theorem tr_readA85Body_clean : ∀ fuel res pos val,
     Tr (Clean t) (readA85Body fuel res pos val) (Post (fun _ sc' => Clean t sc') (EC t)) := by
@@ -1774,20 +2255,7 @@ section
 variable {t : String}
 
 theorem iof_fatal {e : Err} (h : IoF t e) : FatalE e := by
-  rcases h with h | h <;> subst h <;> trivial
-
-theorem peek_single {b : UInt8} {rest ext pk : List UInt8} (h : pk = (b :: rest) ++ ext) (hl : pk.length < 2) :
-    pk = [b] := by
-  subst h
-  simp at hl
-  have : rest ++ ext = [] := by
-    cases h : rest ++ ext with
-    | nil => rfl
-    | cons x xs =>
-      have := congrArg List.length h
-      simp at this
-      omega
-  simp [this]
+  cases h; trivial
 
 /-- the two-byte look-ahead of `ScanToken` after a successful `Peek` -/
 theorem tr_peekN2 (b : UInt8) :
@@ -1854,7 +2322,7 @@ theorem tr_scanTokenRest_clean : Tr (Clean t) scanTokenRest (Post (fun _ sc' => 
         · exact Or.inl h2.1
         · rw [if_pos h2.2.1, h2.1.2.1] at heq
           cases heq
-          exact Or.inr (Or.inl rfl)
+          exact Or.inr rfl
       · rename_i heq
         refine tr_fail (fun sc h => ?_)
         obtain ⟨rfl, h2⟩ := h
@@ -1880,13 +2348,14 @@ theorem tr_scanToken_clean :
     Tr (Clean t) scanToken
       (Post (fun _ sc' => sc'.dsc ≠ [] ∨ Clean t sc') (fun e sc' => sc'.dsc ≠ [] ∨ ECw t e sc')) := by
   rw [scanToken_eq]
-  refine tr_bind tr_getS' (fun s => ?_) (fun e sc h => h.elim)
+  refine tr_bind tr_getS (fun s => ?_) (fun e sc h => h.elim)
   refine tr_bind (A := fun _ sc' => I t False sc' ∧ (sc'.dsc ≠ [] ∨ (Clean t sc' ∧ sc'.peek ≠ [])))
     (E := fun e sc' => sc'.dsc ≠ [] ∨ ECw t e sc') ?_ (fun _ => ?_) (fun e sc h => h)
   · intro sc h
-    have h1 := tr_skipWhiteSpace_clean (fuelOf s + 4) sc h
-    have h2 := fr_skipWhiteSpace (t := t) (b := False) (fuelOf s + 4) sc ⟨⟨h.1, Or.inl h.2.1⟩, False.elim⟩
-    generalize skipWhiteSpace (fuelOf s + 4) sc = p at h1 h2
+    obtain ⟨rfl, h⟩ := h
+    have h1 := tr_skipWhiteSpace_clean (fuelOf s + 4) s ⟨h, by unfold fuelOf mu; omega⟩
+    have h2 := fr_skipWhiteSpace (t := t) (b := False) (fuelOf s + 4) s ⟨⟨h.1, Or.inl h.2.1⟩, False.elim⟩
+    generalize skipWhiteSpace (fuelOf s + 4) s = p at h1 h2
     obtain ⟨r, s1⟩ := p
     cases r with
     | error e => exact h1
@@ -1929,7 +2398,7 @@ theorem tr_readByteRaw_t0 (R : Bool) : Tr (T0 t R) readByteRaw (Post (fun _ sc' 
         · rename_i h0; rw [hf] at h0; cases h0
         · rename_i t' h0
           rw [hf] at h0; cases h0
-          exact ⟨trivial, Or.inr (Or.inl rfl)⟩
+          exact ⟨trivial, Or.inr rfl⟩
 
 theorem tr_readHexPair_t0 (R : Bool) : ∀ fuel i out,
     Tr (T0 t R) (readHexPair fuel i out) (Post (fun _ sc' => T0 t R sc') (T0E t)) := by
@@ -2017,7 +2486,7 @@ theorem tr_beginEexec_clean :
           · exact Or.inl h2
           · rw [h2.1.2.1] at heq
             cases heq
-            exact Or.inr (Or.inl (Or.inl rfl))
+            exact Or.inr (Or.inl rfl)
         · refine tr_fail_bind (fun sc h => ?_)
           rename_i heq
           obtain ⟨rfl, h2⟩ := h
@@ -2785,7 +3254,7 @@ theorem step_scanRun {m n : Nat} (ih : AllGood t m n) (s : State) :
           all_goals rcases hq' hp with f2 | f2
           all_goals first
             | exact Or.inl f2
-            | (cases f2; exact Or.inr (Or.inl rfl))
+            | (cases f2; exact Or.inr rfl)
             | cases f2
   · rw [if_neg hcs]
     exact key_none s (fun h => h) (fun h => h)
@@ -2918,13 +3387,12 @@ theorem start_pre (t : String) (s : State) (input : List UInt8) : Pre t (startSt
 
 /-- **A read failure that the scanner has hit is reported.**  If, at the end of `Execute` on a
 reader that fails with error `t` after the bytes `input`, the scanner's sticky error is set
-and no structured (`%%`) comment has been recorded, then the result is that read error (or
-the scanner model's fuel marker, which stands for no Go behaviour).  For every program,
-fault position, operation budget and fuel. -/
+and no structured (`%%`) comment has been recorded, then the result is exactly that read
+error.  For every program, fault position, operation budget and fuel. -/
 theorem io_fault_surfaces {fuel m : Nat} {s s' : State} {input : List UInt8} {t : String} {r : Res}
     (h : execute fuel m s input (some t) = (s', r))
     (hhit : s'.scanner.err ≠ none) (hdsc : s'.scanner.dsc = []) :
-    r = .err (.io t) ∨ r = .err (.other "scanner-fuel") := by
+    r = .err (.io t) := by
   rw [execute_eq] at h
   have g := ((allGood t m fuel).2.2.2.2.2.2.2.2.2.2.2.1 (startState s input (some t))).1
   generalize scanRun fuel m (startState s input (some t)) = p at h g
@@ -2935,9 +3403,9 @@ theorem io_fault_surfaces {fuel m : Nat} {s s' : State} {input : List UInt8} {t 
     split at h <;> cases h <;> rfl
   have hb : Bad s1.scanner := by rw [← hsc]; exact ⟨hhit, hdsc⟩
   obtain ⟨e, rfl, he⟩ := g2 hb
-  rcases he with rfl | rfl
-  · cases h; exact Or.inl rfl
-  · cases h; exact Or.inr rfl
+  cases he
+  cases h
+  rfl
 
 /-- **With a failing reader only an explicit `stop` ends `Execute` normally**: the input
 never ends cleanly, so the scanning loop never returns `nil`. -/
@@ -2963,7 +3431,7 @@ theorem ok_after_hit_has_dsc {fuel m : Nat} {s s' : State} {input : List UInt8} 
     (h : execute fuel m s input (some t) = (s', .ok)) (hhit : s'.scanner.err ≠ none) :
     s'.scanner.dsc ≠ [] := by
   intro hd
-  rcases io_fault_surfaces h hhit hd with h1 | h1 <;> cases h1
+  cases io_fault_surfaces h hhit hd
 
 /-- the scanner invariant at the end: the sticky error is unset or the reader's failure -/
 theorem final_scanner_err {fuel m : Nat} {s s' : State} {input : List UInt8} {t : String} {r : Res}
